@@ -449,7 +449,7 @@ def _find_nested_call(root: ast.expr, helpers: dict[str, tuple[ast.AST, bool]]) 
         if isinstance(e, ast.Compare):
             return rec(e.left)
         for ch in ast.iter_child_nodes(e):
-            if isinstance(ch, ast.expr_context):
+            if isinstance(ch, (ast.expr_context, ast.unaryop, ast.operator, ast.cmpop, ast.boolop)):
                 continue
             r = rec(ch)
             if r:
@@ -539,6 +539,17 @@ def inline_in_function(fn: ast.AST, helpers: dict[str, tuple[ast.AST, bool]], co
                     setattr(st, fld, process(b))
             for h in getattr(st, "handlers", []) or []:
                 h.body = process(h.body)
+            # `if A and B(helper call): X` (no else)  ->  `if A: if B: X`, so that the call can be expanded in place
+            if isinstance(st, ast.If) and not st.orelse and isinstance(st.test, ast.BoolOp) and isinstance(st.test.op, ast.And) and len(st.test.values) >= 2:
+                has_call = [any(isinstance(c, ast.Call) and _helper_name(c, helpers) for c in ast.walk(v)) for v in st.test.values]
+                if any(has_call[1:]):
+                    k = has_call.index(True, 1)
+                    inner_test = st.test.values[k] if k == len(st.test.values) - 1 else ast.BoolOp(op=ast.And(), values=st.test.values[k:])
+                    outer_test = st.test.values[0] if k == 1 else ast.BoolOp(op=ast.And(), values=st.test.values[:k])
+                    inner = ast.copy_location(ast.If(test=inner_test, body=st.body, orelse=[]), st)
+                    st.test = outer_test
+                    st.body = process([inner])
+                    changed = True
             done = False
             for _ in range(6):
                 target: ast.expr | None = None
@@ -770,6 +781,46 @@ def drop_type_checking(tree: ast.Module) -> int:
     return count
 
 
+# ------------------------------------------------------------------ N18 specific handler + catch-all handler
+_BUILTIN_EXC = {"IndexError", "KeyError", "ValueError", "TypeError", "AttributeError", "OSError", "RuntimeError", "LookupError", "ArithmeticError", "TimeoutError", "ConnectionError", "ConnectionResetError", "UnicodeDecodeError"}
+
+
+def merge_handlers(tree: ast.Module) -> int:
+    """try: B / except T as a: X / except Exception as b: Y   ->   except Exception as e: if isinstance(e, T): X else: Y
+    (T a builtin Exception subclass): the spelling the dispatcher uses; both orders of writing it mean the same."""
+    count = 0
+    for fn in [x for x in ast.walk(tree) if isinstance(x, FuncDef)]:
+        for t in [x for x in ast.walk(fn) if isinstance(x, ast.Try)]:
+            hs = t.handlers
+            if len(hs) != 2 or hs[0].type is None or hs[1].type is None:
+                continue
+            last = hs[1].type
+            if not (isinstance(last, ast.Name) and last.id == "Exception"):
+                continue
+            t0 = hs[0].type
+            names0 = [t0] if not isinstance(t0, ast.Tuple) else list(t0.elts)
+            if not all(isinstance(x, ast.Name) and x.id in _BUILTIN_EXC for x in names0):
+                continue
+            var = hs[1].name or hs[0].name or "_exc"
+            used = {x.id for x in ast.walk(fn) if isinstance(x, ast.Name)}
+            if var in used and var not in (hs[0].name, hs[1].name):
+                continue
+
+            def ren(body: list[ast.stmt], old: str | None) -> list[ast.stmt]:
+                if old is None or old == var:
+                    return body
+                return [_Subst({old: var}).visit(b) for b in body]
+
+            test = ast.Call(func=ast.Name(id="isinstance", ctx=ast.Load()), args=[ast.Name(id=var, ctx=ast.Load()), copy.deepcopy(t0)], keywords=[])
+            merged = ast.ExceptHandler(type=ast.Name(id="Exception", ctx=ast.Load()), name=var, body=[ast.If(test=test, body=ren(hs[0].body, hs[0].name), orelse=ren(hs[1].body, hs[1].name))])
+            ast.copy_location(merged, hs[0])
+            t.handlers = [merged]
+            count += 1
+    if count:
+        ast.fix_missing_locations(tree)
+    return count
+
+
 # ------------------------------------------------------------------ N12 conditional-expression assignments
 def ifexp_to_if(tree: ast.Module) -> int:
     """`x = a if c else b`  ->  `if c: x = a` / `else: x = b`   (also `x, y = (a, b) if c else (d, e)` and a call
@@ -787,6 +838,22 @@ def ifexp_to_if(tree: ast.Module) -> int:
             a = ast.Assign(targets=[copy.deepcopy(st.target)], value=v.body)
             b = ast.Assign(targets=[copy.deepcopy(st.target)], value=v.orelse)
             return [ast.copy_location(ast.If(test=v.test, body=[ast.copy_location(a, st)], orelse=[ast.copy_location(b, st)]), st)]
+        if isinstance(st, ast.Assign) and len(st.targets) == 1 and isinstance(st.targets[0], ast.Tuple) and isinstance(st.value, ast.Tuple) and len(st.targets[0].elts) == len(st.value.elts) and all(isinstance(t, ast.Name) for t in st.targets[0].elts):
+            names = {t.id for t in st.targets[0].elts}
+            if not any(isinstance(x, ast.Name) and x.id in names for v in st.value.elts for x in ast.walk(v)):
+                return [ast.copy_location(ast.Assign(targets=[t], value=v), st) for t, v in zip(st.targets[0].elts, st.value.elts)]
+        if isinstance(st, ast.Expr) and isinstance(st.value, ast.Call) and len(st.value.args) == 1 and not st.value.keywords and isinstance(st.value.args[0], ast.IfExp) and isinstance(st.value.func, (ast.Attribute, ast.Name)):
+            v = st.value.args[0]
+            ca = ast.Expr(value=ast.Call(func=copy.deepcopy(st.value.func), args=[v.body], keywords=[]))
+            cb = ast.Expr(value=ast.Call(func=copy.deepcopy(st.value.func), args=[v.orelse], keywords=[]))
+            return [ast.copy_location(ast.If(test=v.test, body=[ast.copy_location(ca, st)], orelse=[ast.copy_location(cb, st)]), st)]
+        if isinstance(st, ast.Assign) and len(st.targets) > 1 and any(isinstance(t, ast.Name) for t in st.targets) and not isinstance(st.value, (ast.Yield, ast.Await)):
+            first = next(t for t in st.targets if isinstance(t, ast.Name))
+            outl: list[ast.stmt] = [ast.copy_location(ast.Assign(targets=[first], value=st.value), st)]
+            for t in st.targets:
+                if t is not first:
+                    outl.append(ast.copy_location(ast.Assign(targets=[t], value=ast.Name(id=first.id, ctx=ast.Load())), st))
+            return outl
         if isinstance(st, ast.Return) and isinstance(st.value, ast.IfExp):
             v = st.value
             return [ast.copy_location(ast.If(test=v.test, body=[ast.copy_location(ast.Return(value=v.body), st)], orelse=[ast.copy_location(ast.Return(value=v.orelse), st)]), st)]
@@ -1029,6 +1096,10 @@ def normalize_trees(trees: dict[str, ast.Module]) -> dict[str, Any]:
     def n14() -> None:
         report["unrolled_literal_loops"] = sum(unroll_literal_loops(t) for t in trees.values())
 
+    def n18() -> None:
+        report["merged_handlers"] = sum(merge_handlers(t) for t in trees.values())
+
+    guarded("N18 handler merge", n18)
     guarded("N12 conditional expressions", n12)
     guarded("N14 literal loops", n14)
     guarded("N3 walrus", n3)
